@@ -701,6 +701,7 @@ DIVERGING_23 = ('const_call_in_helper',)     # cl23+ compilation of these does n
 
 # shapes reported by the independent sub-agents as suspicious on the unmodified tree (see DESIGN.md §6/§7)
 TEMPLATES += [
+    ('main_if_uses_args', '(mod (X Y Z) {S} (if X 1 (- Y Z)))', [('list', 'B', 'B', 'B'), ('list', 'E', 'B', 'B')]),
     ('inline_rest_missing', '(mod (X) {S} (defun-inline F (A B C) (list A B C)) (F 1 &rest X))', [('list', ('list', 'B', 'B'))]),
     ('capture_let', '(mod (P) {S} (defun F ((@ pt (X Y))) (let ((Z (+ X 1))) (list Z Y pt))) (F P))', [('list', ('list', 'B', 'B'))]),
     ('guarded_common_subexpression', '(mod (C D E) {S} (if C (c (f (r (f (r E)))) 1) (if D (c (f (r (f (r E)))) 2) 7)))', [('list', 'E', 'E', 'B'), ('list', 'B', 'E', ('list', 'B', ('list', 'B', 'B')))]),
